@@ -3,7 +3,8 @@ import glob, json, os, re
 import vlib
 
 TARGETS = ["Base/Num.vo", "Base/Corr.vo", "C02/Model.vo", "C02/Spec.vo", "C02/Corr.vo",
-           "C02/ProofsInt.vo", "C02/ProofsReal.vo", "C02/ProofsRed.vo", "C02/ProofsConv.vo", "C02/Props.vo"]
+           "C02/ProofsInt.vo", "C02/ProofsReal.vo", "C02/ProofsRed.vo", "C02/ProofsConv.vo",
+           "C02/Ext.vo", "C02/ProofsExt.vo", "C02/CorrExt.vo", "C02/Props.vo"]
 PROPS = ["C02/Props.v"]
 CORPUS = os.path.join(vlib.ROOT, "corpus/C02/corpus.jsonl")
 PROPOSED = os.path.join(vlib.ROOT, "corpus/C02/known_findings_proposed.json")
@@ -11,19 +12,24 @@ PROPOSED = os.path.join(vlib.ROOT, "corpus/C02/known_findings_proposed.json")
 PARTIAL = (
     "Proved in Coq for ALL arguments, about the hand-written op table coq/C02/Model.v (one text over a carrier record): "
     "(1) integer types (every carrier): add/sub/mul = wrap_k of the exact result, division = wrap_k of Z.quot (shown to truncate toward zero), "
-    "MinInt/-1 wraps, division by zero panics, Neg/Abs/Min/Max/Greater/Smaller/Sign agree with the order of the operands as read through the "
-    "receiver type's getter; (2) the four float types on the real carrier XR (reals + -oo, storage rounding = identity), universally over the "
-    "opaque special functions: every elementary method equals its named real function (Erfc = 1 - erf, erf the integral), arithmetic, Abs = |x|, "
-    "Sigmoid = Logistic = 1/(1+e^-x) on both sign branches, LogAdd = ln(e^a+e^b) with -oo neutral, LogSub = ln(e^a-e^b), Log1pExp within "
-    "l1pe_err(x) <= 2^-48 of ln(1+e^x) on every branch (exact on (-37,18]), SmoothMax = sum x e^(ax)/sum e^(ax), LogSmoothMax equal to it for positive "
-    "vectors, Vmean, VdotV, Vnorm = sqrt(sum x^2), Mtrace, Mnorm = sum of squares (and refuted as Frobenius norm); (3) Real64 value path = Float64 "
-    "value path for every op (every carrier; the concrete SQRT excluded, its two bodies differ); (4) ConvertScalar/ConvertConstScalar yield the "
+    "MinInt/-1 wraps, division by zero panics, Neg/Abs/concrete ABS/Min/Max/Greater/Smaller/Sign agree with the order of the operands as read through the "
+    "receiver type's getter; integer Equals is the epsilon test on the float64 readings (exact equality refuted: known finding F-EQUALS-INT); "
+    "(2) the four float types on the real carrier XR (reals + -oo, storage rounding = identity), universally over the "
+    "opaque special functions: every elementary method equals its named real function (Erfc = 1 - erf, erf the integral), arithmetic, Abs = concrete ABS = |x| "
+    "(for every previous value of the receiver), Sigmoid = Logistic = 1/(1+e^-x) on both sign branches, LogAdd = ln(e^a+e^b) with -oo neutral, LogSub = ln(e^a-e^b), Log1pExp within "
+    "l1pe_err(x) <= 2^-48 of ln(1+e^x) on every branch (exact on (-37,18]; middle branch a + e^-a through a temporary), SmoothMax = sum x e^(ax)/sum e^(ax) for every real vector, LogSmoothMax equal to it for positive "
+    "vectors, Vmean, VdotV, Vnorm = sqrt(sum x^2), Mtrace, Mnorm = sum of squares (and refuted as Frobenius norm); (2b) on the EXTENDED carrier ER = R + {+oo,-oo,NaN} "
+    "(coq/C02/Ext.v: IEEE arithmetic on the infinities/NaN, elementary functions with the C99/Go value at +-Inf, NaN and the domain edges): the special-value table of "
+    "Exp/Log/Log1p/Sin/Cos/Tan/Sinh/Cosh/Tanh/Erf/Erfc/Gamma/Sqrt as theorems on every float type, LogAdd = ln(e^a+e^b) and LogSub = ln(e^a-e^b) for ALL pairs of ER "
+    "(a<b gives NaN, a=b gives -oo, all Inf/NaN combinations), Log1pExp (+oo, 0, NaN at +oo, -oo, NaN), Sigmoid/Logistic (1, 0, NaN), SmoothMax of the empty vector = NaN, "
+    "LogSmoothMax = SmoothMax for every vector of NON-NEGATIVE elements (zeros included, all-zero vector gives 0) and NaN as soon as one element is negative; "
+    "(3) Real64 value path = Float64 value path for every op (every carrier; the concrete SQRT excluded, its two bodies differ); (4) ConvertScalar/ConvertConstScalar yield the "
     "requested registered type holding the getter-converted value; refutations for the known findings. NOT proved: the step from exact reals to "
     "binary64/binary32 rounding (covered per sampled case: bit-exact replay on Coq primitive floats with float32 rounding via "
     "SpecFloat.binary_normalize 24 128, innocuous double rounding of + - * / assumed for Float32), the accuracy of Go's math.* (certified per "
-    "recorded call by Coq-Interval goals, capped per run) and of math.Gamma/Lgamma and /repo/special (opaque; only same-routing across types is "
-    "checked), float->int conversions of NaN/out-of-range values (implementation-defined in Go: excluded and counted), +Inf/NaN behaviour of "
-    "transcendental methods as theorems (compared bit-exactly through the recorded math.* result only), derivative slots (C01).")
+    "recorded call by Coq-Interval goals, capped per run; the special-value table is checked against every recorded call with a non-finite argument or result) and of math.Gamma/Lgamma and /repo/special (opaque; only same-routing across types is "
+    "checked), float->int conversions of NaN/out-of-range values (implementation-defined in Go: excluded and counted), signed zeros and overflow/underflow on the extended carrier "
+    "(R has one zero; math.Pow at non-finite operands only for the exponents 0.5 and 2), derivative slots (C01).")
 
 
 def known():
@@ -136,6 +142,7 @@ def run(ctx):
     ctx.cov["trusted_base"] = vlib.TRUSTED_BASE_COMMON + [
         "float32 rounding modelled by SpecFloat.binary_normalize 24 128; Float32 + - * / as round32 of the binary64 operation (double rounding innocuous since 53 >= 2*24+2)",
         "math.* / special.* calls answered from a per-case oracle table recorded by the harness (Go's own results for the same argument bits); math.Exp/Log/Log1p/Sin/Cos/Tan/Sinh/Cosh/Tanh/Erf/Erfc/Pow entries certified against the real functions by Coq-Interval (interval/integral tactics), capped per run; Gamma/Lgamma/special.* opaque",
+        "the extended carrier ER (coq/C02/Ext.v) is a specification-side instance of the same op table; its special-value table fn_special / fn_edge is tied to Go's math package by CorrExt.special_ok over every recorded call with a non-finite argument or result (runs/C02/cert_special.v); its IEEE arithmetic on the infinities is hand-written (one zero, no overflow)",
         "Coquelicot/Reals axioms as printed under 'print_assumptions'",
     ]
     ctx.cov["partial"] = PARTIAL
@@ -145,7 +152,8 @@ def run(ctx):
         if ctx.tier == "quick":
             # Print Assumptions walks the whole Reals/Coquelicot closure (~2 s per theorem): one representative per group in quick
             keep = ["C02_int_div", "C02_int_min", "C02_elementary", "C02_log1pexp", "C02_log1pexp_error_bound", "C02_logadd",
-                    "C02_logsmoothmax_agrees_with_smoothmax", "C02_vnorm", "C02_real64_value_path_binary", "C02_convert_scalar"]
+                    "C02_logsmoothmax_agrees_with_smoothmax", "C02_vnorm", "C02_real64_value_path_binary", "C02_convert_scalar",
+                    "C02_concrete_ABS", "C02_ext_logsub", "C02_ext_logsmoothmax_nonnegative"]
             thms = [t for t in thms if t in keep]
         ctx.cov["print_assumptions"] = vlib.print_assumptions("C02", [("C02.Props", thms)], ctx.dir)
     # optional stretch target: agreement with the value table of the C01 model (another builder's file; never the decision)
